@@ -126,7 +126,7 @@ func c02Eval(cs *c02Case, ts *tinyStats, bs *bnStats) (got, want string, err err
 	case "full-small", "full-engine-bn":
 		f := ref.BN
 		if cs.Kind == "full-small" {
-			f = ref.NewField(big.NewInt(cs.P))
+			f = fieldFor(fmt.Sprint(cs.P))
 		}
 		shape, asg := cs.B.reduced(f).circuits()
 		got = "reject"
